@@ -4010,6 +4010,11 @@ class Fused(Blockwise):
             i = 0 if self._broadcast_dep(_expr) else index
             if isinstance(_expr, Fused):
                 subgraph, name = _expr._task(i)[1:3]
+                # The external inputs of the nested group are members or
+                # external inputs of this one: drop its placeholders, they
+                # must not replace the tasks of members added before
+                for dep in _expr.dependencies():
+                    subgraph.pop(_expr._blockwise_arg(dep, i), None)
                 graph.update(subgraph)
                 graph[(name, i)] = name
             else:
